@@ -103,6 +103,14 @@ static void* jnoise(void* p) {
   for (int k = 0; k < 3; k++) fiber_yield();
   return 0;
 }
+// sc=9: the target leaves a runnable companion on its own kernel thread just before it finishes, so
+// when it has to poll for its joiner (joiner between its state exchange and its context switch)
+// its yield really queues it - and an idle kernel thread may steal it in the middle of the poll
+static void* f_body_companion(void* p) {
+  fiber_detach(fiber_create(STK, jnoise, 0));
+  mark_returned();
+  return VAL;
+}
 static void* detacher(void* p) {
   mark_detached();
   int r = fiber_detach(F);
@@ -176,6 +184,12 @@ int harness_main(void) {
       if (!ok) fmc_fail("join: joining a finished fiber failed");
       break;
     }
+    case 9:
+      F = fiber_create(STK, f_body_companion, 0); fmc_focus(F, sizeof *F);
+      other[0] = fiber_create(STK, joiner, (void*)1);
+      fmc_yield();
+      if (jres(other[0]) != (void*)1) fmc_fail("join: joiner failed on a joinable fiber");
+      break;
     case 7:
     case 8: {
       F = fiber_create(STK, f_body, 0); fmc_focus(F, sizeof *F);
